@@ -21,7 +21,7 @@ RULE = ('trash-put of one symlink per case (to file, dir, nothing, another link,
         'non-trivial = the link resolves to something (or has trailing slashes); distinct = (link kind, target volume relation, trailing '
         'slashes, reached through link, outcome)')
 ASSUMPTIONS = ["'link-to-file/' is ENOTDIR for the kernel: failing is legitimate there, following is not"]
-PROBES = ['compared-with-a-plain-file-at-the-same-place', 'another-link-took-the-place', 'member-through-the-link-then-the-link', 'cross-volume-fallback', 'link-trashed', 'trailing-slash-on-dirlink-trashed', 'legitimate-enotdir-refusal', 'target-other-volume', 'reached-through-link',
+PROBES = ['link-given-before-its-own-target', 'compared-with-a-plain-file-at-the-same-place', 'another-link-took-the-place', 'member-through-the-link-then-the-link', 'cross-volume-fallback', 'link-trashed', 'trailing-slash-on-dirlink-trashed', 'legitimate-enotdir-refusal', 'target-other-volume', 'reached-through-link',
           'restored-identical-link', 'dangling', 'chain', 'selfloop', 'with-force', 'with-interactive-yes', 'link-given-after-its-own-target']
 TECHNIQUE = 'deterministic simulation of put and restore on generated symlink configurations; snapshot oracle on the link target, lstat/readlink of the payload, recorded location'
 LEVEL_TEXT = 'seeded exploration of link kinds x spellings x volumes; the target subtree must be snapshot-identical after every command'
@@ -117,13 +117,18 @@ def gen(rng):
     if kind in ('file', 'dir', 'chain', 'chain_dir') and rng.random() < 0.15 and '-i' not in putopts:
         # the link's own target is given as an operand too, BEFORE the link: both are entries of their own
         also = {'file': aux + '/tfile', 'dir': aux + '/tdir', 'chain': aux + '/hop', 'chain_dir': aux + '/hopd'}[kind]
+    target_after = None
+    if not also and kind in ('dir', 'chain_dir') and rng.random() < 0.12 and '-i' not in putopts:
+        # the link (often written with trailing slashes) and THEN the directory it points to, spelled with more components than
+        # the link: 'trash-put current/ releases/v1' - operands are handled in the order given, the link while it still leads somewhere
+        target_after = {'dir': aux + '/tdir', 'chain_dir': aux + '/hopd'}[kind]
     member_first = None
-    if not also and kind in ('dir', 'chain_dir', 'other_vol_dir') and slashes >= 1 and '-i' not in putopts and rng.random() < 0.3:
+    if not also and not target_after and kind in ('dir', 'chain_dir', 'other_vol_dir') and slashes >= 1 and '-i' not in putopts and rng.random() < 0.3:
         # an entry INSIDE the link's target, spelled through the link, is an operand too, before the link itself (written with
         # trailing slashes, as shell completion does): 'trash-put current/stale.log current/'
         member_first = arg.rstrip('/') + '/' + ('omember' if kind == 'other_vol_dir' else 'member')
     occupant = None
-    if rng.random() < 0.15 and not also and not member_first:
+    if rng.random() < 0.15 and not also and not member_first and not target_after:
         # between the put and the restore ANOTHER symlink appears where the trashed one was (the 'current' link was flipped to
         # the next release): without --overwrite the restore is refused; with it the trashed link takes the place of the new one
         # - the new link's target is never entered, written through or created
@@ -132,14 +137,14 @@ def gen(rng):
         steps.append(['f', home + '/aux/occ_file', 'occupant target', 0o644])
         occupant = {'target': rng.choice([home + '/aux/occ_dir', home + '/aux/occ_dir', home + '/aux/occ_file', home + '/aux/occ_nothing', 'occ_rel_nothing']),
                     'overwrite': rng.random() < 0.6}
-    procs = [{'argv': ['trash-put'] + putopts + ['--'] + ([also] if also else []) + ([member_first] if member_first else []) + [arg], 'env': env, 'cwd': home, 'uid': uid, 'stdin': 'y\ny\n'},
+    procs = [{'argv': ['trash-put'] + putopts + ['--'] + ([also] if also else []) + ([member_first] if member_first else []) + [arg] + ([target_after] if target_after else []), 'env': env, 'cwd': home, 'uid': uid, 'stdin': 'y\ny\n'},
              {'argv': ['trash-restore', '--sort=path'] + (['--overwrite'] if occupant and occupant['overwrite'] else []) + ['/'],
               'env': env, 'cwd': '/', 'uid': uid, 'stdin': '?'}]
     return {
         'world': {'mounts': L['mounts'], 'steps': steps},
         'procs': procs,
         'dirsalt': rng.randrange(1 << 30),
-        'note': {'kind': kind, 'slashes': slashes, 'via': via, 'also_target': also, 'occupant': occupant, 'member_first': member_first},
+        'note': {'kind': kind, 'slashes': slashes, 'via': via, 'also_target': also, 'occupant': occupant, 'member_first': member_first, 'target_after': target_after},
     }
 
 
@@ -179,6 +184,47 @@ def check_member_first(sim, case, st, put, files):
                         % (put['argv'], o.named.loc, o.state, o.why, r.exit, r.errs[-400:])))
     if outs[1].state == 'trashed':
         pe = snap1.get(outs[1].tdir + '/files/' + outs[1].name)
+        if pe is None or pe[0] != 'l' or pe[1] != text:
+            res.append(('C18/payload-not-the-link/%s' % sig, 'payload is %r, expected a symlink to %r' % (pe, text)))
+        if not res:
+            # ... and into the trash directory it goes to when it is the only operand: what was trashed before it plays no part
+            sim.setup(case)
+            s0 = sim.snap()
+            solo = dict(put, argv=put['argv'][:put['argv'].index('--') + 1] + [files[1]])
+            n1 = OP.name_entry(sim.root, solo.get('cwd', '/'), files[1], s0, mounts)
+            rs = sim.run(solo)
+            st.sims += 1
+            so, _p2 = OP.judge(sim.root, s0, sim.snap(), [n1], mounts)
+            if so[0].state == 'trashed' and so[0].tdir != outs[1].tdir:
+                res.append(('C18/trash-dir-depends-on-the-operand-before/%s' % sig, 'after %r the link %r goes to %r, alone it goes to %r'
+                            % (files[0], files[1], outs[1].tdir, so[0].tdir)))
+    return res
+
+
+def check_link_then_target(sim, case, st, put, files):
+    """trash-put LINK[/] TARGET: the link is handled first, while it still leads to the directory - both end up trashed, the
+    link as a link"""
+    mounts = OR.mounts_of(case)
+    snap0 = sim.snap()
+    nm_l = OP.name_entry(sim.root, put.get('cwd', '/'), files[0], snap0, mounts)
+    nm_t = OP.name_entry(sim.root, put.get('cwd', '/'), files[1], snap0, mounts)
+    if nm_t.kind != 'entry' or nm_l.kind != 'entry' or not (nm_l.ekind or '').startswith('symlink'):
+        return []
+    text = snap0[nm_l.loc][1]
+    r = sim.run(put)
+    st.sims += 1
+    st.ops += r.nops
+    snap1 = sim.snap()
+    st.probes['link-given-before-its-own-target'] += 1
+    outs, _p = OP.judge(sim.root, snap0, snap1, [nm_l, nm_t], mounts)
+    res = []
+    sig = '%s/before-its-target' % nm_l.ekind
+    for o, what in ((outs[0], 'link'), (outs[1], 'target')):
+        if o.state != 'trashed':
+            res.append(('C18/%s-not-trashed-properly/%s' % (what, sig), 'trash-put %r: %r is in state %s %s (exit %s)\nstderr: %s'
+                        % (put['argv'], o.named.loc, o.state, o.why, r.exit, r.errs[-400:])))
+    if outs[0].state == 'trashed':
+        pe = snap1.get(outs[0].tdir + '/files/' + outs[0].name)
         if pe is None or pe[0] != 'l' or pe[1] != text:
             res.append(('C18/payload-not-the-link/%s' % sig, 'payload is %r, expected a symlink to %r' % (pe, text)))
     return res
@@ -232,6 +278,9 @@ def check(sim, case, st):
     mf = case.get('note', {}).get('member_first')
     if mf and len(files) == 2 and files[0] == mf:
         return check_member_first(sim, case, st, put, files)
+    ta = case.get('note', {}).get('target_after')
+    if ta and len(files) == 2 and files[1] == ta:
+        return check_link_then_target(sim, case, st, put, files)
     if len(files) != 1:
         return []
     mounts = OR.mounts_of(case)
